@@ -28,15 +28,6 @@ long gn_file;
 void *gn_left, *gn_right;
 
 #define ASSIGNS_REC __CPROVER_assigns(g_seq, g_dv_calls, g_dv_kind, g_dv_seq, g_dv_node)
-/* MONO for routines that may take back the top stop site (dispatchVoid on a PROGRAM node): the code shrinks by at most that one
- * instruction, and only an instruction that was a POTENTIAL_BREAK at the very end of the code can differ afterwards */
-#define ENS_MONO_V                                                                        \
-  __CPROVER_ensures(GNC >= OLD(GNC) && GNC <= g_gs->out.code._cap && NLAB >= OLD(NLAB) && NLAB <= g_gs->labels._cap && NBP >= OLD(NBP) && \
-                    NBP <= g_gs->backpatching_todo._cap && GNERR >= OLD(GNERR) && GNERR <= g_gs->errors._cap && NREG >= OLD(NREG) && \
-                    NREG <= RCAP && NMARK >= OLD(NMARK) && NMARK <= g_top->marks._cap && NSYM == OLD(NSYM) && LOOPS >= OLD(LOOPS)) /*@C01,C03*/ \
-  __CPROVER_ensures(g_c >= OLD(GNC) || (GOP(g_c) == OLD(GOP(g_c)) && GPAR(g_c, 0) == OLD(GPAR(g_c, 0)) && GPAR(g_c, 1) == OLD(GPAR(g_c, 1)) && \
-                                        GPAR(g_c, 2) == OLD(GPAR(g_c, 2))) || (g_c + 1 == OLD(GNC) && OLD(GOP(g_c)) == OP_POTENTIAL_BREAK)) /*@C01*/
-
 /* statement routines as callees of the dispatcher: frame and MONO of the routine (proved for each routine by its own group),
  * plus the record of the call */
 #define DV_CALLEE(NAME, KIND)                                                             \
@@ -165,9 +156,15 @@ void w_gen_ast(void *p);
 void h_gen_ast(void)
 {
   void *p = setup();
+#ifdef IE_CAP
+  /* bounded stand-in: at most IE_CAP parser errors (constant-size array) */
+  static struct m_SyntaxError the_ie[IE_CAP];
+  the_gs.in.errors._d = the_ie; the_gs.in.errors._cap = IE_CAP; the_gs.in.errors._n = nondet_ulong();
+#else
   unsigned long icap = nondet_ulong();
   __CPROVER_assume(icap <= INT_MAX);
   the_gs.in.errors._d = mk(icap, sizeof(struct m_SyntaxError)); the_gs.in.errors._cap = icap; the_gs.in.errors._n = nondet_ulong();
+#endif
   g_ie = nondet_ulong(); g_seq = 0; g_rc_calls = 0;
   w_gen_ast(p);
   CANARY;
